@@ -109,7 +109,7 @@ static bool plan_from_text(const char* text, Plan& pl, std::string& err) {
     if (!strcmp(kw, "ntasks")) {
       int n = 0;
       sscanf(rest, "%d", &n);
-      if (n < 1 || n > sim::kMaxTasks) { err = "bad ntasks"; return false; }
+      if (n < 1 || n > sim::kMaxCallerTasks) { err = "bad ntasks"; return false; }
       pl.tasks.resize((size_t)n);
       continue;
     }
@@ -185,10 +185,12 @@ struct Shm {
   volatile int crash_sig;
   volatile int terminated;
   int ntasks;
-  int nops[sim::kMaxTasks];
-  Out outs[sim::kMaxTasks][kMaxOps];
-  uint64_t op_events[sim::kMaxTasks][kMaxOps];
-  int threw[sim::kMaxTasks][kMaxOps];
+  char terminate_what[96];  // what() of the exception that reached std::terminate
+  uint64_t prep_threads;  // threads the code under test created during preparation / warm-up
+  int nops[sim::kMaxCallerTasks];
+  Out outs[sim::kMaxCallerTasks][kMaxOps];
+  uint64_t op_events[sim::kMaxCallerTasks][kMaxOps];
+  int threw[sim::kMaxCallerTasks][kMaxOps];
   uint64_t pool_digest_before, pool_digest_after;
   uint64_t pool_objects;
   sim::Result res;
@@ -209,6 +211,15 @@ static void crash_handler(int sig) {
 }
 static void terminate_handler() {
   if (g_shm) g_shm->terminated = 1;
+  if (std::exception_ptr ep = std::current_exception()) {
+    try {
+      std::rethrow_exception(ep);
+    } catch (const std::exception& e) {
+      if (g_shm) snprintf(g_shm->terminate_what, sizeof g_shm->terminate_what, "%s", e.what());
+    } catch (...) {
+      if (g_shm) snprintf(g_shm->terminate_what, sizeof g_shm->terminate_what, "(not a std::exception)");
+    }
+  }
   _exit(69);
 }
 
@@ -257,6 +268,13 @@ static void child_common_setup(const Plan& pl, RunCtx& rc) {
       dup2(devnull, 2);
       close(devnull);
     }
+    if (const char* dbg = getenv("C18SIM_CHILD_STDERR")) {  // debugging aid: keep what the children print
+      int fd = open(dbg, O_WRONLY | O_CREAT | O_APPEND, 0644);
+      if (fd >= 0) {
+        dup2(fd, 2);
+        close(fd);
+      }
+    }
   }
   signal(SIGSEGV, crash_handler);
   signal(SIGBUS, crash_handler);
@@ -283,16 +301,31 @@ static void child_common_setup(const Plan& pl, RunCtx& rc) {
   }
 }
 
-static void child_prepare(const Plan& pl, RunCtx& rc, int only_task) {
+// Preparation (building the pool objects, warm-up) also runs on a simulator thread, as a one-task
+// serial run: code under test that creates threads of its own (a parallelised algorithm, a worker
+// pool) then does so under the scheduler here too, so that the process reaches the simulated
+// interval in the same state in every execution of the plan.
+struct PrepArg {
+  const Plan* pl;
+  RunCtx* rc;
+  int only_task;
+};
+static sim::Result g_prep_res;
+
+static void prep_body(int, void* a) {
+  auto* pa = static_cast<PrepArg*>(a);
+  RunCtx& rc = *pa->rc;
+  h::the_pool().preparing = true;
   for (size_t t = 0; t < rc.ops.size(); ++t) {
-    if (only_task >= 0 && (int)t != only_task) continue;
+    if (pa->only_task >= 0 && (int)t != pa->only_task) continue;
     for (auto& oi : rc.ops[t]) oi.def->prep(oi, h::the_pool());
   }
+  h::the_pool().preparing = false;
   g_shm->stage = 1;
-  if (pl.warm) {
+  if (pa->pl->warm) {
     // warm-up: every operation of the plan once, outside the simulated interval
     for (size_t t = 0; t < rc.ops.size(); ++t) {
-      if (only_task >= 0 && (int)t != only_task) continue;
+      if (pa->only_task >= 0 && (int)t != pa->only_task) continue;
       for (auto& oi : rc.ops[t]) {
         Out dummy;
         dummy.reset();
@@ -300,6 +333,28 @@ static void child_prepare(const Plan& pl, RunCtx& rc, int only_task) {
       }
     }
   }
+}
+
+static void child_prepare(const Plan& pl, RunCtx& rc, int only_task) {
+  PrepArg pa{&pl, &rc, only_task};
+  sim::Config cfg;
+  cfg.ntasks = 1;
+  cfg.strategy = sim::S_SERIAL;
+  cfg.track_memory = false;
+  cfg.fair_after = 50000000ull;
+  cfg.max_events = 2000000000ull;
+  cfg.stack_bytes = 16u << 20;
+  sim::run(cfg, prep_body, &pa, g_prep_res);
+  if (g_prep_res.unsupported || g_prep_res.deadlock || g_prep_res.budget_exhausted || g_prep_res.daemon_threads) {
+    // (threads that outlive the preparation run cannot be carried over into the next run)
+    g_shm->res.unsupported = 1;
+    snprintf(g_shm->res.unsupported_what, sizeof g_shm->res.unsupported_what, "preparation: %s",
+             g_prep_res.unsupported ? g_prep_res.unsupported_what
+             : g_prep_res.deadlock  ? "deadlock"
+             : g_prep_res.budget_exhausted ? "event budget" : "threads left running");
+    _exit(0);
+  }
+  g_shm->prep_threads = g_prep_res.dynamic_threads;
   g_shm->stage = 2;
 }
 
@@ -380,15 +435,16 @@ static void child_prepare(const Plan& pl, RunCtx& rc, int only_task) {
 struct Refs {
   bool ok = false;
   std::string why;
-  int nops[sim::kMaxTasks] = {};
-  Out outs[sim::kMaxTasks][kMaxOps];
-  uint64_t op_events[sim::kMaxTasks][kMaxOps] = {};
-  int threw[sim::kMaxTasks][kMaxOps] = {};
-  uint64_t task_events[sim::kMaxTasks] = {};
+  int nops[sim::kMaxCallerTasks] = {};
+  Out outs[sim::kMaxCallerTasks][kMaxOps];
+  uint64_t op_events[sim::kMaxCallerTasks][kMaxOps] = {};
+  int threw[sim::kMaxCallerTasks][kMaxOps] = {};
+  uint64_t task_events[sim::kMaxCallerTasks] = {};
   uint64_t total_events = 0;
   uint64_t guard_inits = 0;
   uint64_t races = 0;
   uint64_t lock_events = 0;  // mutex / rwlock / condvar / once events seen in the solo runs
+  int internal_task = -1;    // a task whose SOLO run already raced / deadlocked (the operation spawns threads itself)
 };
 
 struct ChildStatus {
@@ -462,6 +518,7 @@ static void compute_refs(const Plan& pl, Refs& refs) {
     refs.guard_inits += g_shm->res.guard_init_in_sim;
     refs.lock_events += g_shm->res.ev_by_kind[sim::EV_MUTEX] + g_shm->res.ev_by_kind[sim::EV_ONCE];
     refs.races += g_shm->res.races_total;
+    if ((g_shm->res.races_total || g_shm->res.deadlock) && refs.internal_task < 0) refs.internal_task = (int)t;
   }
 }
 
@@ -530,8 +587,9 @@ static RunOutcome execute_run(const Plan& pl, const Refs& refs) {
         const OpDef* df = h::find_def(po.name.c_str());
         opn = po.name + ":" + (df ? df->fn_names[po.p[0]] : "?");
       }
-      snprintf(b, sizeof b, "\"crash\":{\"sig\":%d,\"wsig\":%d,\"terminated\":%d,\"exit\":%d,\"stage\":%d,\"task\":%d,\"op\":\"%s\"},",
-               g_shm->crash_sig, ro.cs.sig, g_shm->terminated, ro.cs.exit_code, g_shm->stage, ct, opn.c_str());
+      snprintf(b, sizeof b, "\"crash\":{\"sig\":%d,\"wsig\":%d,\"terminated\":%d,\"exit\":%d,\"stage\":%d,\"task\":%d,\"op\":\"%s\",\"what\":\"%s\"},",
+               g_shm->crash_sig, ro.cs.sig, g_shm->terminated, ro.cs.exit_code, g_shm->stage, ct, opn.c_str(),
+               json_escape(g_shm->terminate_what).c_str());
     }
     d += b;
   }
@@ -949,7 +1007,7 @@ static std::string run_json(const char* tag, uint64_t seed, uint64_t widx, uint6
   int n_inside = 0, n_overlap = 0;
   for (size_t k = 0; k < g_shm->n_sw; ++k) {
     const sim::Switch& w = g_shm->sw[k];
-    if (w.task < 0) continue;
+    if (w.task < 0 || (size_t)w.task >= pl.tasks.size()) continue;  // controller / a thread created by the code under test
     cur[(size_t)w.task] = w.op;
     if (w.op < 0 || w.op >= (int)pl.tasks[(size_t)w.task].size()) continue;
     uint64_t oe = refs.op_events[w.task][w.op];
@@ -959,7 +1017,7 @@ static std::string run_json(const char* tag, uint64_t seed, uint64_t widx, uint6
     const PlanOp& po = pl.tasks[(size_t)w.task][(size_t)w.op];
     const OpDef* d = h::find_def(po.name.c_str());
     inside.push_back(def_index(d) * 64 + (int)po.p[0]);
-    if (w.to >= 0 && w.to < (int)pl.tasks.size()) {
+    if (w.to >= 0 && (size_t)w.to < pl.tasks.size()) {
       int oc = cur[(size_t)w.to];
       int on = oc < 0 ? 0 : oc;
       for (int j = on; j <= on + 1 && j < (int)pl.tasks[(size_t)w.to].size(); ++j)
@@ -1083,6 +1141,33 @@ static int cmd_sweep(uint64_t seed, uint64_t w0, uint64_t wstep, double deadline
              json_escape(refs.why).c_str());
       fflush(stdout);
       continue;
+    }
+    if (refs.internal_task >= 0) {
+      // one caller alone already violates the property (the operation runs threads of its own that
+      // race or deadlock with each other): report that single-caller plan
+      Plan q = pl;
+      q.tasks.assign(1, pl.tasks[(size_t)refs.internal_task]);
+      q.sched = SchedSpec();
+      q.sched.strategy = sim::S_WALK;
+      q.sched.seed = mix64(seed ^ widx);
+      q.sched.p = 0.05;
+      Refs rq;
+      compute_refs(q, rq);
+      if (rq.ok) {
+        double t0 = now_s();
+        RunOutcome ro = execute_run(q, rq);
+        std::string cand;
+        unsigned viol = ro.cls & (C_RACE | C_DIVERGE | C_INPUT | C_DEADLOCK | C_PROGRESS | C_CRASH | C_MACHINERY);
+        if (viol && !cand_dir.empty() && n_cands < max_cands) {
+          n_cands++;
+          char nm[256];
+          snprintf(nm, sizeof nm, "%s/cand-%" PRIu64 "-%" PRIu64 "-solo.plan", cand_dir.c_str(), seed, widx);
+          Plan qe = (g_shm->stage >= 3 && g_shm->n_sw > 0 && g_shm->n_sw < kShmSwitches) ? with_explicit_schedule(q) : q;
+          if (write_file(nm, plan_to_text(qe))) cand = nm;
+        }
+        printf("%s\n", run_json("run", seed, widx, 999, q, rq, ro, cand, now_s() - t0).c_str());
+        fflush(stdout);
+      }
     }
     printf("{\"t\":\"workload\",\"seed\":%" PRIu64 ",\"w\":%" PRIu64 ",\"ntasks\":%zu,\"warm\":%d,\"ref_events\":%" PRIu64
            ",\"ref_guard_inits\":%" PRIu64 ",\"ref_races\":%" PRIu64 "}\n",
